@@ -165,6 +165,9 @@ func (e *EDNS) ServeDNS(ctx context.Context, ch *middleware.Chain) {
 	dropShadowedOPT(req)
 
 	noedns := req.IsEdns0() == nil
+	if noedns {
+		ch.Request.MarkClientWithoutOPT()
+	}
 	keepalive := hasClientKeepalive(req)
 	if hasClientECS(req) {
 		// Preserve the ingress fact before SetEdns0 applies the forwarding
